@@ -1,14 +1,62 @@
-import PV.Prog.Parse
+import PV.Prog.Lemmas
 /-
-  PV.Prog.Thm — theorems about the reference parser for whole programs.
+  PV.Prog.Thm — theorems about the reference parser for whole programs `PV.Prog.parseProgram`
+  (lean/PV/Prog/Parse.lean; tied to the generated LR parser by the PROG correspondence streams).
+
+  (a) `parseProgramFuel_mono`, `parseProgram_total`   fuel: the parser is a total function; an answer `some m` never
+                                                      changes when more fuel is given (in particular for every fuel
+                                                      above the driver's `fuelFor`)
+  (b) `parseProgram_layout_free`                      the tree depends on token kinds / values only, never on positions
+  (c) `parse_expr_stmt_agree`, `interactive_module_agree`
+                                                      Expression mode and Module mode agree on one-expression lines (the
+                                                      exceptions the grammar has are named, each with a witness);
+                                                      Interactive mode = Module mode
+  (d) `elif_chain_spec`, `import_level_spec`, `annassign_simple_spec` (+ `annassign_bare_name`)
+                                                      the hand-written action code at program level
 -/
 namespace PV.Prog
 open PV.Expr PV.C11
 
-/-- **(b) The tree depends on the token kinds / values only, never on positions**: two spanned token streams
-    with equal erasures have equal parses (in every mode).  Together with `PV.C08.lex_layout_invariant`
-    (layout-equivalent texts have equal erased token streams) this is "layout never changes the tree" on the
-    model. -/
+/-! ## (a) fuel -/
+
+/-- **More fuel never changes an accepted answer.** -/
+theorem parseProgramFuel_mono (mode : Mode) (ts : List PTok) (m : Mod) {f f' : Nat} (hle : f ≤ f')
+    (h : parseProgramFuel f mode ts = some m) : parseProgramFuel f' mode ts = some m :=
+  parseTopT_mono_le mode _ m hle h
+
+/-- **`parseProgram` is a total function with an explicit fuel bound**, and its positive answers are stable: if it
+    accepts with the tree `m` (using `fuelFor toks`), every larger fuel gives the same `some m`.  ("Never hangs" is a
+    theorem of the model by construction: every function is structurally recursive on its fuel.) -/
+theorem parseProgram_total (mode : Mode) (ts : List PTok) (m : Mod) (h : parseProgram mode ts = some m) :
+    ∀ fuel, fuelFor (ts.map PTok.toTok) ≤ fuel → parseProgramFuel fuel mode ts = some m :=
+  fun _ hle => parseProgramFuel_mono mode ts m hle h
+
+/-- the other half, stated and NOT proved: `fuelFor` is always enough, i.e. a rejection is never an out-of-fuel
+    artefact.  (Exercised by every request of the correspondence streams: the driver uses exactly `fuelFor`.) -/
+def parseProgram_fuel_adequate_full : Prop :=
+  ∀ (mode : Mode) (ts : List PTok) (fuel : Nat), fuelFor (ts.map PTok.toTok) ≤ fuel →
+    parseProgramFuel fuel mode ts = parseProgram mode ts
+
+/-- acceptance for SOME fuel is acceptance for every sufficiently large fuel -/
+theorem accepts_iff_eventually (mode : Mode) (ts : List PTok) (m : Mod) :
+    Accepts mode ts m ↔ ∃ n, ∀ f, n ≤ f → parseProgramFuel f mode ts = some m :=
+  ⟨fun ⟨f, h⟩ => ⟨f, fun _ hle => parseProgramFuel_mono mode ts m hle h⟩, fun ⟨n, h⟩ => ⟨n, h n (Nat.le_refl n)⟩⟩
+
+theorem accepts_of_parseProgram (mode : Mode) (ts : List PTok) (m : Mod) (h : parseProgram mode ts = some m) :
+    Accepts mode ts m := ⟨_, h⟩
+
+/-- `x = 1⏎`: accepted with 128 + 40·4 fuel, hence with any larger fuel -/
+example : ∀ fuel, 288 ≤ fuel →
+    parseProgramFuel fuel .module [.e (.name [120]), .e (.op .assign), .e (.int 1), .newline]
+      = some (.module [.assign [.name [120]] (.const (.int 1))]) :=
+  fun fuel h => parseProgram_total .module [.e (.name [120]), .e (.op .assign), .e (.int 1), .newline]
+    (.module [.assign [.name [120]] (.const (.int 1))]) (by rfl) fuel h
+
+/-! ## (b) positions do not matter -/
+
+/-- **The tree depends on the token kinds / values only, never on positions**: two spanned token streams with equal
+    erasures have equal parses (in every mode).  Together with `PV.C08.lex_layout_invariant` (layout-equivalent texts
+    have equal erased token streams) this is "layout never changes the tree" on the model. -/
 theorem parseProgram_layout_free (mode : Mode) (a b : List STok) (h : eraseSpans a = eraseSpans b) :
     parseSpanned mode a = parseSpanned mode b := by
   unfold parseSpanned; rw [h]
@@ -16,5 +64,258 @@ theorem parseProgram_layout_free (mode : Mode) (a b : List STok) (h : eraseSpans
 example : parseSpanned .module [⟨.e (.name [120]), 0, 1⟩, ⟨.newline, 1, 2⟩]
     = parseSpanned .module [⟨.e (.name [120]), 4, 5⟩, ⟨.newline, 9, 11⟩] :=
   parseProgram_layout_free _ _ _ rfl
+
+/-! ## (c) entry points agree -/
+
+/-- Tok-level form of the agreement (the statement on the parser's own alphabet follows) -/
+theorem parse_expr_stmt_agreeT (body : List Tok) (e : Expr) (hd : ExprLine body) :
+    AcceptsT .expression (body ++ [tNewline]) (.expression e) ↔
+      AcceptsT .module (body ++ [tNewline]) (.module [.expr e]) := by
+  constructor
+  · -- expression mode ⇒ module mode
+    rintro ⟨f, h⟩
+    simp only [parseTopT, parseTestListS] at h
+    cases hp : parseCommaList .testOrStar f (body ++ [tNewline]) with
+    | none => simp [hp] at h
+    | some x =>
+      obtain ⟨l, rest⟩ := x
+      simp only [hp] at h
+      split at h
+      · rename_i hall
+        simp only [Option.some.injEq, Mod.expression.injEq] at h
+        subst h
+        -- the rest is exactly the NEWLINE
+        have hl := parseCommaList_lastNL _ _ _ _ _ hp (lastNL_concat body)
+        cases rest with
+        | nil => simp [LastNL] at hl
+        | cons t rest' =>
+          have htk : tk t = .newline := by
+            have := List.all_eq_true.mp hall t List.mem_cons_self
+            simpa using this
+          have hr := rest_is_newline hd hp (Or.inl htk)
+          simp only [List.cons.injEq] at hr
+          obtain ⟨rfl, rfl⟩ := hr
+          -- the first token starts an expression
+          cases body with
+          | nil =>
+            rw [List.nil_append, parseCommaList_none_of_stmtHead (by rfl)] at hp
+            cases hp
+          | cons b bs =>
+            have hb : stmtHead b = false := by
+              cases hsb : stmtHead b with
+              | false => rfl
+              | true => rw [List.cons_append, parseCommaList_none_of_stmtHead hsb] at hp; cases hp
+            obtain ⟨h1, h2, h3, h4⟩ := dispatch_of_not_stmtHead hb (bs ++ [tNewline])
+            refine ⟨f + 4, ?_⟩
+            rw [List.cons_append] at hp ⊢
+            have hE : parseExprStmt (f + 1) (b :: (bs ++ [tNewline])) = some (.expr (genericList l), [tNewline]) := by
+              rw [parseExprStmt, hp]
+              simp [tNewline, tk]
+            have hS : parseSmall (f + 2) (b :: (bs ++ [tNewline])) = some (.expr (genericList l), [tNewline]) := by
+              unfold parseSmall
+              split <;> simp_all
+            have hL : parseSimpleLine (f + 3) (b :: (bs ++ [tNewline])) = some ([.expr (genericList l)], []) := by
+              rw [parseSimpleLine, hS]
+              simp [tk_tNewline]
+            simp [parseTopT, parseProgramBody, h1, h2, hL]
+      · simp at h
+  · -- module mode ⇒ expression mode
+    rintro ⟨F, h⟩
+    simp only [parseTopT] at h
+    cases hp : parseProgramBody F (body ++ [tNewline]) with
+    | none => simp [hp] at h
+    | some ss =>
+      simp only [hp, Option.some.injEq, Mod.module.injEq] at h
+      subst h
+      cases F with
+      | zero => simp [parseProgramBody] at hp
+      | succ F =>
+        cases body with
+        | nil =>
+          -- only the NEWLINE: an empty program
+          simp only [List.nil_append] at hp
+          unfold parseProgramBody at hp
+          simp only [tk_tNewline, if_true] at hp
+          cases F <;> simp [parseProgramBody] at hp
+        | cons b bs =>
+          rw [List.cons_append] at hp
+          have hbn : tk b ≠ .newline := (hd.noNlSemi b List.mem_cons_self).1
+          have hby : b ≠ .kw .yield := by
+            intro e; exact hd.notYield (by simp [e])
+          unfold parseProgramBody at hp
+          simp only [hbn, if_false] at hp
+          split at hp
+          · -- a compound statement is not an expression statement
+            repeat' (first | split_any | (simp only [] at hp))
+            all_goals (try (simp at hp; done))
+            rename_i s r1 hc _ more hm
+            simp only [Option.some.injEq, List.cons.injEq] at hp
+            have := parseCompound_not_expr _ _ _ _ hc
+            rw [hp.1] at this
+            simp [isExprStmt] at this
+          · repeat' (first | split_any | (simp only [] at hp))
+            all_goals (try (simp at hp; done))
+            rename_i sl r1 hl _ more hm
+            simp only [Option.some.injEq] at hp
+            have hne := parseSimpleLine_ne_nil _ _ _ _ hl
+            have hsl : sl = [.expr e] := by
+              cases sl with
+              | nil => exact absurd rfl hne
+              | cons a as =>
+                simp only [List.cons_append, List.cons.injEq, List.append_eq_nil_iff] at hp
+                rw [hp.1, hp.2.1]
+            subst hsl
+            obtain ⟨f1, t, rest, rfl, hsm, htk⟩ := parseSimpleLine_single _ _ _ _ hl
+            obtain ⟨f2, rfl, hes⟩ := parseSmall_expr _ _ _ _ _ hsm (by rfl) hby
+            obtain ⟨f3, l, rfl, hcl, he⟩ := parseExprStmt_expr _ _ _ _ hes (by rfl)
+            simp only [Stmt.expr.injEq] at he
+            subst he
+            rw [← List.cons_append] at hcl
+            have hr := rest_is_newline hd hcl htk
+            refine ⟨f3, ?_⟩
+            simp only [parseTopT, parseTestListS, hcl, hr]
+            simp [tk_tNewline]
+
+
+/-- **Expression mode and Module mode agree on one-expression lines**: for the tokens of one logical line
+    (`ExprLine`: no NEWLINE, no `;`, not starting with `yield`) followed by its NEWLINE,
+    Expression mode yields `Expression e` iff Module mode yields `Module [Expr e]`. -/
+theorem parse_expr_stmt_agree (body : List PTok) (e : Expr) (hd : ExprLine (body.map PTok.toTok)) :
+    Accepts .expression (body ++ [.newline]) (.expression e) ↔
+      Accepts .module (body ++ [.newline]) (.module [.expr e]) := by
+  have := parse_expr_stmt_agreeT (body.map PTok.toTok) e hd
+  simpa [Accepts, AcceptsT, parseProgramFuel, PTok.toTok] using this
+
+/-- `a + b⏎` is in the domain and is accepted both ways -/
+example : ExprLine ([PTok.e (.name [97]), .e (.op .plus), .e (.name [98])].map PTok.toTok) :=
+  ⟨by decide, by decide⟩
+example : Accepts .expression ([.e (.name [97]), .e (.op .plus), .e (.name [98])] ++ [.newline])
+    (.expression (.binOp (.name [97]) .add (.name [98]))) := ⟨64, by rfl⟩
+
+/-- **Interactive mode is Module mode**: the same body, for every fuel -/
+theorem interactive_module_agree (fuel : Nat) (ts : List PTok) (b : List Stmt) :
+    parseProgramFuel fuel .interactive ts = some (.interactive b) ↔
+      parseProgramFuel fuel .module ts = some (.module b) := by
+  simp only [parseProgramFuel, parseTopT]
+  cases parseProgramBody fuel (ts.map PTok.toTok) <;> simp
+
+example : parseProgram .interactive [.e (.name [120]), .newline] = some (.interactive [.expr (.name [120])]) := by rfl
+
+/-! the exceptions the grammar really has, each with a witness (`parseProgram` = the driver's fuel) -/
+
+/-- `yield x⏎` is a statement (`FlowStatement`) but not an expression (`YieldExpr` is not a `Test`) -/
+theorem yield_is_statement_only :
+    parseProgram .module [.e (.kw .yield), .e (.name [120]), .newline] = some (.module [.expr (.yield (some (.name [120])))]) ∧
+    parseProgram .expression [.e (.kw .yield), .e (.name [120]), .newline] = none := ⟨by rfl, by rfl⟩
+
+/-- `x;⏎` is a statement line; Expression mode has no `;` -/
+theorem semicolon_is_statement_only :
+    parseProgram .module [.e (.name [120]), .e tSemi, .newline] = some (.module [.expr (.name [120])]) ∧
+    parseProgram .expression [.e (.name [120]), .e tSemi, .newline] = none := ⟨by rfl, by rfl⟩
+
+/-- empty lines may precede a statement, not an expression -/
+theorem leading_newline_is_statement_only :
+    parseProgram .module [.newline, .e (.name [120]), .newline] = some (.module [.expr (.name [120])]) ∧
+    parseProgram .expression [.newline, .e (.name [120]), .newline] = none := ⟨by rfl, by rfl⟩
+
+/-- a starred expression is NOT an exception: `*a⏎` is accepted both ways (`TestList` takes `StarExpr` at its top) -/
+theorem starred_both_ways :
+    parseProgram .expression [.e (.op .star), .e (.name [97]), .newline] = some (.expression (.starred (.name [97]))) ∧
+    parseProgram .module [.e (.op .star), .e (.name [97]), .newline] = some (.module [.expr (.starred (.name [97]))]) :=
+  ⟨by rfl, by rfl⟩
+
+/-- an unparenthesised named expression is rejected both ways (`TestList` has no `NamedExpression`) -/
+theorem walrus_neither_way :
+    parseProgram .expression [.e (.name [97]), .e (.op .walrus), .e (.int 1), .newline] = none ∧
+    parseProgram .module [.e (.name [97]), .e (.op .walrus), .e (.int 1), .newline] = none := ⟨by rfl, by rfl⟩
+
+/-! ## (d) the hand-written action code at program level -/
+
+/-- **elif chains**: whenever the parser reads an `if` statement off a token list, the clauses are the
+    `NamedExpressionTest ":" Suite` groups it read in order and the node is the right-nested reference meaning. -/
+theorem elif_chain_spec (f : Nat) (r : List Tok) (s : Stmt) (r' : List Tok)
+    (h : parseCompound (f + 1) (.kw .if :: r) = some (s, r')) :
+    ∃ test body clauses els r1 r2 r3,
+      parseNamedTest f r = some (test, .op .colon :: r1) ∧ parseSuite f r1 = some (body, r2) ∧
+      parseElifs f r2 = some (clauses, r3) ∧ parseElse f r3 = some (els, r') ∧
+      [s] = ifMeaning ((test, body) :: clauses) (els.getD []) := by
+  rw [parseCompound] at h
+  repeat' (first | split_any | (simp only [] at h))
+  all_goals (try (simp at h; done))
+  simp only [Option.some.injEq, Prod.mk.injEq] at h
+  obtain ⟨rfl, rfl⟩ := h
+  rename_i test r1 h1 _ body r2 h2 _ s2 r3 h3 _ s3 r4 h4
+  exact ⟨test, body, s2, s3, r1, r2, r3, h1, h2, h3, h4, ifAssemble_spec _ _ _ _⟩
+
+
+/-- `if a: b⏎elif c: d⏎else: e⏎` -/
+example : parseProgram .module
+    [.e (.kw .if), .e (.name [97]), .e (.op .colon), .e (.name [98]), .newline,
+     .e (HK.tok .elif), .e (.name [99]), .e (.op .colon), .e (.name [100]), .newline,
+     .e (.kw .else), .e (.op .colon), .e (.name [101]), .newline]
+    = some (.module (ifMeaning [(.name [97], [.expr (.name [98])]), (.name [99], [.expr (.name [100])])]
+        [.expr (.name [101])])) := by rfl
+
+/-- **import level**: whatever way the lexer cut the dots into `.` and `...` tokens, the `level` of the
+    `ImportFrom` node is the number of dot characters in front of the module name -/
+theorem import_level_spec (f : Nat) (ts : List Tok) (s : Stmt) (r : List Tok)
+    (h : parseImportFrom f ts = some (s, r)) :
+    ∃ m names, s = .importFrom m names (some (dotChars ts)) := by
+  cases f with
+  | zero => simp [parseImportFrom] at h
+  | succ f =>
+    rw [parseImportFrom, importDots_spec] at h
+    repeat' (first | split_any | (simp only [] at h))
+    all_goals (try (simp at h; done))
+    all_goals (
+      simp only [Option.some.injEq, Prod.mk.injEq] at *
+      obtain ⟨rfl, _⟩ := h
+      simp_all)
+
+example : parseProgram .module
+    [.e (.kw .from), .e (.op .ellipsis), .e (.op .dot), .e (.name [97]), .e (HK.tok .import), .e (.name [98]), .newline]
+    = some (.module [.importFrom (some [97]) [⟨[98], none⟩] (some 4)]) := by rfl
+
+
+/-- **`simple` of an annotated assignment** is exactly `target.is_name_expr()`: the flag says whether the TREE of
+    the target is a `Name` -/
+theorem annassign_simple_spec (f : Nat) (ts : List Tok) (t a : Expr) (v : Option Expr) (s : Bool) (r : List Tok)
+    (h : parseExprStmt f ts = some (.annAssign t a v s, r)) : s = isName t := by
+  cases f with
+  | zero => simp [parseExprStmt] at h
+  | succ f =>
+    rw [parseExprStmt] at h
+    simp only [assignOf] at h
+    repeat' (first | split_any | (simp only [] at h))
+    all_goals (try (simp_all; done))
+    all_goals (simp only [Option.some.injEq, Prod.mk.injEq, Stmt.annAssign.injEq] at h; obtain ⟨⟨rfl, _, _, rfl⟩, _⟩ := h; rfl)
+
+/-- **a bare NAME target gives `simple = true`**: whenever a statement that starts `NAME :` is read as an
+    annotated assignment, its target is that name and `simple` is set -/
+theorem annassign_bare_name (id : Ident) (r : List Tok) :
+    ∃ n, ∀ f, n ≤ f → ∀ s r', parseExprStmt f (.name id :: .op .colon :: r) = some (s, r') →
+      ∃ a v, s = .annAssign (.name id) a v true := by
+  obtain ⟨n, hn⟩ := commaList_bare_name id r
+  refine ⟨n + 1, fun f hf s r' h => ?_⟩
+  obtain ⟨f1, rfl⟩ : ∃ f1, f = f1 + 1 := ⟨f - 1, by omega⟩
+  rw [parseExprStmt, hn f1 (by omega)] at h
+  simp only [isStarred, isName, Bool.false_eq_true, if_false] at h
+  repeat' (first | split_any | (simp only [] at h))
+  all_goals (try (simp_all; done))
+  all_goals (simp only [Option.some.injEq, Prod.mk.injEq] at h; obtain ⟨rfl, _⟩ := h; exact ⟨_, _, rfl⟩)
+
+/-- `x: int` — simple -/
+example : parseProgram .module [.e (.name [120]), .e (.op .colon), .e (.name [105]), .newline]
+    = some (.module [.annAssign (.name [120]) (.name [105]) none true]) := by rfl
+/-- `x.y: int` — not simple -/
+example : parseProgram .module [.e (.name [120]), .e (.op .dot), .e (.name [121]), .e (.op .colon), .e (.name [105]), .newline]
+    = some (.module [.annAssign (.attribute (.name [120]) [121]) (.name [105]) none false]) := by rfl
+
+/-- `(x): int` — the code sets `simple` (CPython: 0; known finding `annassign-parenthesised-name-simple` of C01):
+    the flag is computed from the tree, in which the parentheses are gone -/
+theorem annassign_paren_name_simple :
+    parseProgram .module [.e (.op .lpar), .e (.name [120]), .e (.op .rpar), .e (.op .colon), .e (.name [105]), .newline]
+    = some (.module [.annAssign (.name [120]) (.name [105]) none true]) := by rfl
+
 
 end PV.Prog
